@@ -41,6 +41,32 @@ Ref(j) == T.ev[j]      \* reference "bin" events come first, in bin order
 Sq(a) == MulQ20(a, a)
 Near(a, b, s) == Abs(a - b) <= s
 
+(* Error bars as RATIOS (Q20, -1 = undefined), valid for every coherence in (0, 1] - also 1e-30 and 1 - 1e-13, where the      *)
+(* absolute Q12 fields above are blind:                                                                                      *)
+(*   kxy = Gxy_error^2 * g2 * n                     khm = Hxy_mag_error^2 * 2 g2 n / |1-g2|                                  *)
+(*   kco = coh_error^2 * g2 * n / (2 (1-g2)^2)      rdxy, rdh, rdcoh = deviation / (estimate * normalised error)             *)
+(*   pr  = Hxy_rad_error / Hxy_mag_error = asin(s)/s with s^2 = om = |1-g2|;  rd = Hxy_deg_error * pi / (180 Hxy_rad_error) *)
+(* asin(s)/s = 1 + s^2/6 + 3 s^4/40 + ... with positive coefficients summing to pi/2 at s = 1, hence                        *)
+(*   1 + s^2/6 + 3 s^4/40  <=  asin(s)/s  <=  1 + s^2/6 + (pi/2 - 7/6) s^4                                                  *)
+UnitRatio(v) == v = -1 \/ Near(v, Q, 8)
+ArcsineForm(e) ==
+    e.pr = -1 \/ LET o2 == MulQ20(e.om, e.om) IN
+                  /\ e.pr >= Q + (e.om \div 6) + ((3 * o2) \div 40) - 4
+                  /\ e.pr <= Q + (e.om \div 6) + MulQ20(o2, 423750) + 4
+ErrorRatios(e) ==
+    /\ Check("C10:Gxy_error_is_one_over_sqrt_coh_n", UnitRatio(e.kxy))
+    /\ Check("C10:Hxy_mag_error_is_sqrt_one_minus_coh_over_2_coh_n", UnitRatio(e.khm))
+    /\ Check("C10:coh_error_is_sqrt2_one_minus_coh_over_sqrt_coh_n", UnitRatio(e.kco))
+    /\ Check("C10:Gxy_dev_is_estimate_times_error", UnitRatio(e.rdxy))
+    /\ Check("C10:Hxy_dev_is_estimate_times_error", UnitRatio(e.rdh))
+    /\ Check("C10:coh_dev_is_estimate_times_error", UnitRatio(e.rdcoh))
+    /\ Check("C10:phase_error_is_arcsine_of_sqrt_one_minus_coh_over_sqrt_2_coh_n", ArcsineForm(e))
+    /\ Check("C10:phase_error_equals_magnitude_error_as_coherence_tends_to_one", e.pr = -1 \/ e.om > 4 \/ e.pr <= Q + 4)
+    /\ Check("C10:degree_error_is_radian_error_times_180_over_pi", UnitRatio(e.rd))
+Errs == LET e == Ev IN
+    /\ Check("C10:navg_is_number_of_averages", e.n = e.nD /\ e.n >= 1)
+    /\ ErrorRatios(e)
+
 BinEv ==
     LET e == Ev IN
     \* ---------------- C09 ----------------
@@ -65,6 +91,7 @@ BinEv ==
          /\ Check("C10:phase_error_at_least_magnitude_error", e.ehr >= e.ehm - 2)
          /\ Check("C10:phase_error_at_most_half_pi_times_magnitude_error", 2 * e.ehr <= MulQ20(e.ehm, QPI) + 8 + e.ehm \div 100000)
          /\ Check("C10:degree_error_is_radian_error_times_180_over_pi", Near(MulQ20(e.ehd, QPI), 180 * e.ehr, 100 + e.ehd \div 10000)))
+    /\ ErrorRatios(e)
     \* ---------------- C11 ----------------
     /\ Check("C11:empirical_variance_nonnegative", e.ev >= 0 /\ e.m2 >= 0)
     /\ Check("C11:empirical_variance_is_scatter_over_n", Near(e.ev * e.n, e.m2, e.n + 2))
@@ -178,6 +205,7 @@ Step ==
          [] Ev.t = "winsum" -> WinSum
          [] Ev.t = "sine" -> Sine
          [] Ev.t = "single" -> Single
+         [] Ev.t = "errs" -> Errs
          [] Ev.t = "gain" -> Gain
          [] Ev.t = "delay" -> Delay
     /\ l' = l + 1 /\ UNCHANGED tid
